@@ -381,8 +381,14 @@ class TaskDispatcher(object):
                             }
                         )
 
+                """
+                Acknowledge the response that is stored now: if a later errored
+                rpcmessage response replaced the one this timeout was set for
+                (see below) that one has already been acknowledged.
+                """
+                stored_message = self.orphaned_responses[message.correlation_id][0]
                 del self.orphaned_responses[message.correlation_id]
-                message.acknowledge(multiple=False)
+                stored_message.acknowledge(multiple=False)
 
 
         correlation_id = message.correlation_id
